@@ -78,7 +78,8 @@ def label_of(labels, i, kind):
 @robust(1, 0)
 def run_pair_case(case):
     kind, n, si, ei, fpos, fault = case['span'], case['n'], case['si'], case['ei'], case['fpos'], case['fault']
-    kw = dict(max_iter=3, min_iter=case['min_iter'], tol=scripted.TOL, errors=case['errors'], failures=case['failures'])
+    kw = dict(max_iter=3, min_iter=case['min_iter'], tol=scripted.TOL, errors=case['errors'], failures=case['failures'],
+              catch_first_error=case.get('cfe', True))
     a, labels = build(kind, n, fpos, fault)
     b, _ = build(kind, n, fpos, fault)
     init = observe(a)
@@ -128,6 +129,8 @@ def run_pair_case(case):
     # containment, stated directly: periods after the failing one are untouched
     if exc is not None:
         failing = rng[len(rb[1])]
+        if fault == 'exc' and case['errors'] == 'raise' and failing == fpos and tuple(exc) == ('SolutionError', 'exception') and str(a.status[failing]) != 'E':
+            out.append(('containment:failing-period-status', 'E', str(a.status[failing]), 'the failing period does not carry the status its policy prescribes'))
         for name in ('A', 'B', 'C', 'status', 'iterations'):
             for p in range(n):
                 if p > failing or p < s0:
@@ -156,9 +159,11 @@ def run_pairs(block, tier, acc):
         for fpos, fault in fault_places:
             for errors in ('raise', 'skip', 'ignore', 'replace'):
                 for failures in ('raise', 'ignore'):
-                    for min_iter in ((0,) if tier == 'quick' else (0, 2)):
+                    for min_iter, cfe in (((0, True), (0, False)) if tier == 'quick' else ((0, True), (2, True), (0, False))):
+                        if cfe is False and (fault in ('none', 'nonconv') or errors != 'raise'):
+                            continue
                         case = dict(kind='pairs', span=kind, n=n, si=si, ei=ei, fpos=fpos, fault=fault, errors=errors,
-                                    failures=failures, min_iter=min_iter)
+                                    failures=failures, min_iter=min_iter, cfe=cfe)
                         acc.evaluations += 1
                         try:
                             with guard(10):
@@ -228,12 +233,18 @@ def run_misc_case(case):
                 out.append(('empty-span', 'SolutionError', r[0], 'solve() on an empty span must raise SolutionError'))
     elif what == 'ambiguous-year':
         # a year on a quarterly PeriodIndex resolves to a slice, not a single position
-        for arg in ('start', 'end', 'period'):
+        for arg in ('start', 'end', 'period', 'valid-start+end', 'start+valid-end', 'start+end'):
             span = pd.period_range('1999Q1', periods=12, freq='Q')
             m = scripted.make_scripted(span, {p: list(NORMAL) for p in range(12)}, cls=scripted.Scripted)
             init = observe(m)
             if arg == 'period':
                 r = refsolve.call_outcome(m.solve_period, '2000', tol=scripted.TOL)
+            elif arg == 'valid-start+end':
+                r = refsolve.call_outcome(m.solve, tol=scripted.TOL, start=span[1], end='2000')
+            elif arg == 'start+valid-end':
+                r = refsolve.call_outcome(m.solve, tol=scripted.TOL, start='2000', end=span[10])
+            elif arg == 'start+end':
+                r = refsolve.call_outcome(m.solve, tol=scripted.TOL, start='2000', end='2001')
             else:
                 r = refsolve.call_outcome(m.solve, tol=scripted.TOL, **{arg: '2000'})
             if r[0] != 'KeyError':
